@@ -6,6 +6,8 @@ package c10
 import (
 	"context"
 	"fmt"
+	"io"
+	"net/http"
 	"strings"
 	"time"
 
@@ -78,11 +80,11 @@ func (op Op) doc() string {
 type Case struct {
 	// ReqCtx: every operation runs under a context of its own that is
 	// cancelled right after the call returned (request-scoped contexts).
-	ReqCtx bool `json:"req_ctx,omitempty"`
-	Store string `json:"store"` // memory sqlite sqlitemem durable
-	Chunk int    `json:"chunk,omitempty"`
-	Batch int    `json:"batch,omitempty"` // sqlite stream batch size
-	Ops   []Op   `json:"ops"`
+	ReqCtx bool   `json:"req_ctx,omitempty"`
+	Store  string `json:"store"` // memory sqlite sqlitemem durable
+	Chunk  int    `json:"chunk,omitempty"`
+	Batch  int    `json:"batch,omitempty"` // sqlite stream batch size
+	Ops    []Op   `json:"ops"`
 }
 
 type entry struct {
@@ -304,6 +306,42 @@ func (r *run) step(i int, op Op) {
 			return
 		}
 		r.apps = addUnique(r.apps, off)
+	case "appendlost":
+		// durable-streams only: the server applies the append and the answer
+		// is lost on the way back (connection reset after commit).  Whether
+		// Append reports the failure or not, the log holds the event once.
+		if r.srv == nil {
+			return
+		}
+		ev := &eventbus.Event{Type: op.Type, Data: []byte(op.doc())}
+		ent := entry{typ: op.Type, data: op.doc()}
+		if op.TS != nil {
+			ev.Timestamp = op.TS.Time()
+			ent.ts = ev.Timestamp
+		}
+		armed := true
+		r.srv.SetAfterFault(func(_ int, req *http.Request) error {
+			if armed && req.Method == http.MethodPost {
+				armed = false
+				return io.ErrUnexpectedEOF
+			}
+			return nil
+		})
+		off, err := r.a.Append(r.ctx, ev)
+		r.srv.SetAfterFault(nil)
+		r.log = append(r.log, ent)
+		if r.reopened {
+			r.appendAfterReopen = true
+		}
+		r.o.Class("append_whose_answer_was_lost_after_the_server_applied_it")
+		if err == nil {
+			// reported as a success: then the offset must be the event's
+			r.lastApp = off
+			if !r.bindOffset(what+" returned offset", off, len(r.log)) {
+				return
+			}
+			r.apps = addUnique(r.apps, off)
+		}
 	case "read":
 		from, p, ok := r.resolve(op.From)
 		if !ok {
